@@ -163,7 +163,7 @@ def _run_unit(args, box=None):
         if box is not None:
             box["eng"] = eng
         ctx = H.SymCtx(sym)
-        deadline = t0 + opts.get("unit_budget_s", 3600)
+        deadline = min(t0 + opts.get("unit_budget_s", 3600), opts.get("check_deadline", float("inf")))
         validate_every = opts.get("validate_every", 1)
         seen_real_fail = set()
 
@@ -291,6 +291,9 @@ def main(mod, argv=None):
         units = [u for u in units if a.only in u["name"]]
     opts = dict(getattr(mod, "OPTIONS", {}).get(tier, {}))
     opts["seed"] = seed
+    # a whole-check time limit: units that have not finished by then are inconclusive, what the others
+    # found is still reported (a change that makes many units explode must not make the check run for hours)
+    opts["check_deadline"] = t0 + float(os.environ.get("SX_CHECK_BUDGET_S", opts.get("check_budget_s", 1200 if tier == "quick" else 5 * 3600)))
     if tier == "thorough":
         opts.setdefault("path_limit_s", 60)
         opts.setdefault("cross_every", 400)  # sampled queries are re-decided by z3 4.8.12 and cvc5
